@@ -306,6 +306,11 @@ func (self *visitorUserNode) OnInt64(v int64, n json.Number) error {
 		if err = self.p.WriteSint32(convertData); err != nil {
 			return err
 		}
+	// NOTICE: an enum is spelled as its number, like p2j writes it
+	case proto.EnumKind:
+		if err = self.p.WriteEnum(proto.EnumNumber(v)); err != nil {
+			return err
+		}
 	case proto.Sfixed32Kind:
 		convertData := int32(v)
 		if err = self.p.WriteSfixed32(convertData); err != nil {
